@@ -64,15 +64,6 @@ Proof.
   destruct (negb _); [discriminate|]. intro H. injection H as <-. cbn [s_remain]. lia.
 Qed.
 
-Ltac remain_crush :=
-  repeat match goal with
-  | H : (_, _) = (_, _) |- _ => injection H as <- <- || (injection H as _ <-) || discriminate H
-  | H : context [match ?x with _ => _ end] |- _ => destruct x eqn:?; try discriminate
-  | H : pgt_huge_page _ _ = (OK, _) |- _ => apply huge_page_remain in H; [exact H|]
-  end;
-  cbn [set_raw set_base set_addr set_elemsz set_as set_idx set_remain elemsz_last
-       s_remain s_base s_as s_elemsz s_idx s_raw] in *; try lia.
-
 Lemma elemsz_last_remain s : s_remain (elemsz_last s) = s_remain s.
 Proof. unfold elemsz_last. destruct (Nat.eqb (s_remain s) 1); reflexivity. Qed.
 
